@@ -205,6 +205,19 @@ def warm_with(t, v, T):
     return True
 
 
+_WRAPPED = {}
+
+
+def wrapped_twice(t, T):
+    import typing
+    if t not in _WRAPPED:
+        a1 = typing.TypeAliasType(f"A1_{t}", T)
+        n1 = typing.NewType(f"N1_{t}", T)
+        _WRAPPED[t] = [("alias(alias)", typing.TypeAliasType(f"A2_{t}", a1)), ("NewType(NewType)", typing.NewType(f"N2_{t}", n1)),
+                       ("alias(NewType)", typing.TypeAliasType(f"AN_{t}", n1))]
+    return _WRAPPED[t]
+
+
 def check_scalar(t, v, col, warm=False):
     T = TYPES[t]
     tl.clear_all()
@@ -268,6 +281,19 @@ def check_scalar(t, v, col, warm=False):
                 case["diag"] = "duration-float-precision"
             col.violation("text-round-trip", case, f"unmarshal({t}, {c} of {text!r}) -> {why_different(r, v)}",
                           bucket=f"{t}|{diff_bucket(r, v)}")
+    # the same text through wrappers two layers deep (alias of an alias, NewType of a NewType, alias of a NewType): the routine
+    # is chosen by what the chain resolves to, and must be *built* for that, too
+    if not warm:
+        for wname, Tw in wrapped_twice(t, T):
+            col.ev()
+            col.label("wrapped-twice:" + wname)
+            k, r = tl.call(tl.unmarshal, Tw, text)
+            if k == "exc" or not deep_same(r, v):
+                c_ = dict(base, text=text, wrap=wname)
+                if k == "ok" and same_up_to_duration_float(r, v):
+                    c_["diag"] = "duration-float-precision"
+                col.violation("text-round-trip", c_, f"unmarshal({wname} over {t}, {text!r}) " + (f"raised {tl.exc_name(r)}: {r}" if k == "exc" else "-> " + why_different(r, v)),
+                              bucket=f"{t}|wrapped|{wname}")
     if is_b and len(vsrc) < 160:
         col.sample({"type": t, "v": vsrc, "text": text, "warm": warm})
     # 5. temporal -> numeric / str / bytes
